@@ -536,72 +536,141 @@ def rule_r5(prog, res) -> None:
         res.violation("C06.R5", rt, fn, "a task or sentinel is not addressed to the rank just served", key_extra="dispatcher-dest")
 
 
+BCAST_FAMILY = ("bcast", "Bcast", "bcast_instance", "bcast_array", "gather", "Gather", "allgather", "scatter")
+
+
+def _placeholder(e) -> bool:
+    return (isinstance(e, ast.Constant) and e.value is None) or unparse(e) in ("()", "set()", "[]", "{}")
+
+
+def _designated_rank_oracle(designated: bool):
+    """decides rank tests for 'this is the designated (root / writer / given) rank' resp. 'it is another rank'"""
+
+    def oracle(e):
+        if isinstance(e, ast.Call):
+            nm = (dotted(e.func) or "").split(".")[-1]
+            if nm == "on_root":
+                return designated
+            if nm == "on_worker":
+                return not designated
+        if isinstance(e, ast.Compare) and len(e.ops) == 1 and isinstance(e.ops[0], (ast.Eq, ast.NotEq)):
+            sides = [e.left, e.comparators[0]]
+            if any(isinstance(x, ast.Call) and (dotted(x.func) or "").split(".")[-1] == "Get_rank" for x in sides):
+                return designated if isinstance(e.ops[0], ast.Eq) else not designated
+        return None
+
+    return oracle
+
+
 def rule_r6(prog, res) -> None:
-    """root-only values are broadcast before use"""
+    """root-only values are broadcast before use.
+
+    Every function with a rank test is explored twice, as the designated rank and as another rank;
+    paths are paired by their remaining (rank-independent) decisions.  A read of a local whose
+    substituted value is a placeholder (None, (), [], set()) on the other rank but a real value on
+    the designated rank is a use of a root-only value: it must be the argument of a broadcast /
+    gather, a comparison with None, a plain copy, or a bare `return` (then the function returns a
+    root-only value and the same obligation is imposed on its callers)."""
+    from .. import symx
+
+    def has_rank_test(f) -> bool:
+        return any(isinstance(x, ast.Call) and (dotted(x.func) or "").split(".")[-1] in ("on_root", "on_worker", "Get_rank") for x in ast.walk(f.node))
+
+    returns_root_only: dict = {}  # FuncInfo -> Return node
+    checked: set = set()
     n = 0
-    for fi in _mpi_funcs(prog):
-        fn = fi.node
-        cfg = None
-        for st in walk_no_nested(fn):
-            if not (isinstance(st, ast.If) and _rank_dependent(prog, fi, st.test) and ("on_root" in unparse(st.test) or "Get_rank" in unparse(st.test))):
+
+    def analyse(f) -> None:
+        nonlocal n
+
+        def watch(x):
+            if isinstance(x, ast.Name) and isinstance(x.ctx, ast.Load):
+                return True
+            if isinstance(x, ast.Attribute) and isinstance(x.ctx, ast.Load) and isinstance(x.value, ast.Name):
+                return True  # self.attr assigned on the root rank only
+            return isinstance(x, ast.Call) and any(t in returns_root_only for t in prog.resolve_call(f, x).funcs())
+
+        def call_value_other(fi, call, funcs):
+            return ast.Constant(value=None) if any(t in returns_root_only for t in funcs) else None
+
+        try:
+            pr = symx.explore(prog, f, oracle=_designated_rank_oracle(True), watch=watch)
+            pw = symx.explore(prog, f, oracle=_designated_rank_oracle(False), watch=watch, call_value=call_value_other)
+        except symx.TooManyPaths as err:
+            raise AnalysisError(f"C06.R6: {err}") from None
+        by_conds: dict = {}
+        for p in pr:
+            vals = by_conds.setdefault(p.cond_text(), {})
+            for ev in p.events:
+                if ev.kind == "expr":
+                    vals.setdefault(id(ev.node), []).append(ev.expr)
+        hits: dict = {}
+        for p in pw:
+            vals = by_conds.get(p.cond_text())
+            if vals is None:
                 continue
-            # variables assigned in the root branch that are initialised to a placeholder before
-            targets = []
-            for s in st.body:
-                for x in ast.walk(s):
-                    if isinstance(x, ast.Assign):
-                        for t in x.targets:
-                            if isinstance(t, (ast.Name, ast.Attribute)):
-                                targets.append(unparse(t))
-            for tname in sorted(set(targets)):
-                inits = [x for x in walk_no_nested(fn) if isinstance(x, ast.Assign) and any(unparse(t) == tname for t in x.targets) and x.lineno < st.lineno and not any(x is y for y in ast.walk(st))]
-                if not inits or not all(isinstance(i.value, ast.Constant) and i.value.value is None or unparse(i.value) in ("()", "set()", "[]") for i in inits):
-                    continue
-                n += 1
-                res.touch(fi)
-                cfg = cfg or cfg_of(fn)
-                bc_nodes = []
-                for nd in cfg.nodes:
-                    a = nd.ast
-                    if nd.kind == "stmt" and isinstance(a, ast.Assign) and any(unparse(t) == tname for t in a.targets) and isinstance(a.value, ast.Call):
-                        f = a.value.func
-                        fnm = f.attr if isinstance(f, ast.Attribute) else (dotted(f) or "")
-                        if fnm in ("bcast", "Bcast", "bcast_instance", "bcast_array"):
-                            bc_nodes.append(nd)
-                    if nd.kind == "stmt" and isinstance(a, ast.Return) and isinstance(a.value, ast.Call):
-                        f = a.value.func
-                        fnm = f.attr if isinstance(f, ast.Attribute) else (dotted(f) or "")
-                        if fnm in ("bcast", "Bcast", "bcast_instance", "bcast_array") and any(unparse(x) == tname for x in a.value.args):
-                            bc_nodes.append(nd)
-                # uses after the if-statement that are not the broadcast itself
-                after = [nd for nd in cfg.nodes if nd.lineno > (st.end_lineno or st.lineno) and nd.expr is not None]
-                bad = None
-                for nd in after:
-                    if nd in bc_nodes:
-                        continue
-                    uses = [x for x in ast.walk(nd.expr) if isinstance(x, (ast.Name, ast.Attribute)) and unparse(x) == tname and isinstance(getattr(x, "ctx", None), ast.Load)]
-                    if not uses:
-                        continue
-                    guards = cfg.guards(nd)
-                    if any(_rank_dependent(prog, fi, t) for t, _ in guards):
-                        continue  # used on the root rank only
-                    if not any(cfg.dominates(b, nd) for b in bc_nodes):
-                        bad = nd
-                        break
-                if bad is not None:
-                    res.violation(
-                        "C06.R6",
-                        fi,
-                        bad.ast,
-                        f"`{tname}` is only computed on the root rank but used here by every rank without a dominating broadcast: worker ranks continue with the placeholder value",
-                        key_extra=f"root-only-{tname}",
-                    )
-                elif bc_nodes:
-                    res.ok("C06.R6", res.site(fi, tname), "root-only value is broadcast before every unguarded use")
-                else:
-                    res.ok("C06.R6", res.site(fi, tname), "root-only value has no unguarded use", nontrivial=False)
-    if n < 8:
-        raise AnalysisError(f"C06.R6: only {n} root-only values found, minimum 8")
+            for ev in p.events:
+                if ev.kind == "expr" and _placeholder(ev.expr):
+                    rv = vals.get(id(ev.node), [])
+                    if rv and any(not _placeholder(r) for r in rv):
+                        hits.setdefault(id(ev.node), ev)
+        if not hits:
+            return
+        parents = parents_map(f.node)
+        per_name: dict = {}
+        for ev in hits.values():
+            node = ev.node
+            name = node.id if isinstance(node, ast.Name) else unparse(node)[:40]
+            par = parents.get(id(node))
+            ctx = "use"
+            if isinstance(par, ast.Call) and (node in par.args or any(k.value is node for k in par.keywords)):
+                fnm = par.func.attr if isinstance(par.func, ast.Attribute) else (dotted(par.func) or "")
+                if fnm in BCAST_FAMILY:
+                    ctx = "bcast"
+            elif isinstance(par, ast.Return):
+                ctx = "return"
+            elif isinstance(par, ast.Compare) and all(isinstance(o, (ast.Is, ast.IsNot)) for o in par.ops):
+                ctx = "none-test"
+            elif isinstance(par, (ast.Assign, ast.AnnAssign)) and par.value is node:
+                ctx = "copy"
+            elif isinstance(par, ast.Tuple) and isinstance(parents.get(id(par)), ast.Return):
+                ctx = "return"
+            per_name.setdefault(name, []).append((ctx, node))
+        for name, uses in sorted(per_name.items()):
+            n += 1
+            res.touch(f)
+            bad = [nd for c, nd in uses if c == "use"]
+            if bad:
+                res.violation(
+                    "C06.R6",
+                    f,
+                    bad[0],
+                    f"`{name}` is only computed on the root rank but used here by every rank without a dominating broadcast: worker ranks continue with the placeholder value",
+                    key_extra=f"root-only-{name}",
+                )
+                continue
+            rets = [nd for c, nd in uses if c == "return"]
+            if rets and f not in returns_root_only:
+                returns_root_only[f] = rets[0]
+            kinds = sorted({c for c, _ in uses})
+            res.ok("C06.R6", res.site(f, name), f"root-only value is only {'/'.join(kinds)} outside rank guards", nontrivial="bcast" in kinds)
+
+    todo = [f for f in _mpi_funcs(prog) if has_rank_test(f)]
+    for f in todo:
+        analyse(f)
+        checked.add(f)
+    # functions returning a root-only value: the obligation moves to their callers (fixpoint, bounded)
+    for _ in range(4):
+        before = set(returns_root_only)
+        callers = [f for f in _mpi_funcs(prog) if any(any(t in returns_root_only for t in prog.resolve_call(f, c).funcs()) for c in calls_in(f))]
+        for f in callers:
+            analyse(f)
+        if set(returns_root_only) == before:
+            break
+    for f, ret in returns_root_only.items():
+        res.ok("C06.R6", res.site(f, "returns root-only"), "returns a value that exists on the root rank only; every in-package caller was checked with the result treated as root-only", nontrivial=False)
+    if n < 6:
+        raise AnalysisError(f"C06.R6: only {n} root-only values found, minimum 6")
     # buffer form: array filled on root only, Bcast before it is read
     hc = prog.func("HistData.from_catalog")
     res.touch(hc)
